@@ -421,7 +421,8 @@ def c17_matchers(v, text="", base_text="", **kw):
             return "C17-comment-line-inside-named-block-ends-the-block"
         if kind in ("membership_changed", "code_changed", "layout_changed"):
             moved = d.get("moved") or {}
-            if kind != "membership_changed" or all(list(b) == [""] for a, b in moved.values()):
+            # every definition that moved went to the unnamed component (a repeated definition can stay in both)
+            if kind != "membership_changed" or all("" in list(b) and "" not in list(a or []) for a, b in moved.values()):
                 return "C17-comment-line-inside-named-block-ends-the-block"
     if place in ("spaces_only_line_inside_block", "tab_only_line_inside_block"):
         if (kind == "edit_makes_load_fail" and "StateNotFoundInComponent" in exc and "component ''" in exc) or kind in ("membership_changed", "code_changed", "layout_changed"):
@@ -488,6 +489,15 @@ def c11_matchers(v, text="", ode=None, ref=None, saved=None, **kw):
 @matcher("C16")
 def c16_matchers(v, text="", n_sing=0, ode=None, target=None, **kw):
     d = v.get("detail", {})
+    if v.get("kind") == "contract" and v.get("subkind") == "K7" and isinstance(d.get("detail"), dict):
+        # the in-flight contract on atoms.remove_singularities sees the same mechanism one stage earlier
+        dd = d["detail"]
+        kk = dd.get("n_finite_singularities", 0)
+        if kk >= 2 and dd.get("where") == "regular point" and dd.get("ratio") is not None and abs(dd["ratio"] - round(dd["ratio"])) < 1e-9 and 2 <= round(dd["ratio"]) <= kk:
+            return "C16-sum-of-conditionals"
+        if kk >= 2 and dd.get("where") == "singular value":
+            return "C16-sum-of-conditionals"
+        return None
     k = d.get("n_removable", n_sing) or 0
     if v.get("kind") == "not_the_limit_at_removable_point" and ode is not None and target and exp_constant_folded(ode, target, d.get("expr", "")):
         # the folded form (c*exp(x) - 1)/(x + a) is not exactly 0/0 at the singular value: the singularity is either not
@@ -553,4 +563,26 @@ def c15_matchers(v, text="", **kw):
             return "C15-sympy-folds-floor-to-a-history-dependent-constant"
     if v.get("kind") == "saved_imported_model_rejected" and "'oo'" in (d.get("exc") or "") and "oo" in (d.get("saved_line") or ""):
         return "C15-simplify-in-writer-emits-infinite-bound"
+    return None
+
+
+@matcher("C20")
+def c20_matchers(v, text="", ref=None, rhs_row=None, ode=None, evalf=None, **kw):
+    """sympy differentiates b**e as b**e * (e' log b + e b'/b): where the base of a power is exactly zero at the input
+    the Jacobian entry evaluates to nan although the partial derivative exists."""
+    import math
+
+    import sympy
+
+    d = v.get("detail", {})
+    if v.get("kind") == "jacobian_entry" and isinstance(d.get("got"), float) and math.isnan(d["got"]) and rhs_row is not None and evalf is not None and d.get("point"):
+        for pw in rhs_row.atoms(sympy.Pow):
+            if pw.exp.is_Integer and pw.exp >= 1:
+                continue
+            try:
+                b = evalf(pw.base, ode, d["point"])
+            except Exception:
+                continue
+            if b.is_number and b == 0:
+                return "C20-derivative-of-a-power-with-zero-base-is-nan"
     return None
